@@ -28,6 +28,27 @@ fn main() {
                     }
                     0
                 }
+                "gen" => {
+                    // debug aid: print generated programs and their reference behaviour
+                    let n: u64 = args.get(2).and_then(|s| s.parse().ok()).unwrap_or(3);
+                    let luau = args.get(3).map(|s| s == "luau").unwrap_or(false);
+                    for i in 0..n {
+                        let tape = dlv::tape::tape_from_seed(1000 + i, 700);
+                        let mut t = dlv::tape::Tape::new(&tape);
+                        let opts = if luau { dlv::gen::progen::GenOpts::luau() } else { dlv::gen::progen::GenOpts::lua51() };
+                        let p = dlv::gen::progen::gen_program(&mut t, &opts);
+                        let text = dlv::luaprint::print_plain(&p.block);
+                        println!("-------- program {} ({:?})\n{}", i, p.stats, text);
+                        match dlv::luasyn::parse(&text, dlv::luasyn::Mode::Luau) {
+                            Ok(po) => {
+                                let (o, msg) = dlv::luaref::run_debug(&po.block, &dlv::behave::cfg(dlv::luaref::Dialect::Luau));
+                                println!("-------- behaviour\n{}{}", dlv::behave::describe(&o), msg.unwrap_or_default());
+                            }
+                            Err(e) => println!("PARSE ERROR {:?}", e),
+                        }
+                    }
+                    0
+                }
                 "run" => {
                     if args.len() < 4 {
                         usage();
